@@ -1,6 +1,740 @@
-//! E4 SimCPU (placeholder until built).
+//! E4 SimCPU — ring-0 instruction set by trap-and-emulate on the real machine code of the crate (DESIGN §3, Appendix B).
+//! Fault mode: privileged instructions raise #GP/#UD -> SIGSEGV/SIGILL -> decoded and applied to the simulated register file.
+//! Step mode: RFLAGS.TF single-stepping; before every instruction the SIGTRAP handler inspects it and emulates sensitive ones.
+#![allow(static_mut_refs)]
 use libc::{c_int, siginfo_t, ucontext_t};
-pub fn panic_hook_notify() {}
-pub unsafe fn on_signal(_sig: c_int, _info: *mut siginfo_t, _uc: &mut ucontext_t) -> bool {
+
+#[derive(Clone, Copy, Debug, PartialEq, Eq)]
+pub enum Ev {
+    ReadCr(u8, u64),
+    WriteCr(u8, u64),
+    ReadDr(u8, u64),
+    WriteDr(u8, u64),
+    Rdmsr(u32, u64),
+    /// msr, value (EDX:EAX), raw RAX, raw RDX
+    Wrmsr(u32, u64, u64, u64),
+    Xgetbv(u32, u64),
+    Xsetbv(u32, u64),
+    Cli,
+    Sti,
+    Hlt,
+    Pushf(u64),
+    Popf(u64),
+    /// port (DX or imm8), width in bits, value
+    In(u16, u8, u32),
+    Out(u16, u8, u32),
+    Invlpg(u64),
+    Invpcid(u64, u64, u64),
+    Invlpgb(u64, u32, u32),
+    Tlbsync,
+    /// limit, base, address of the memory operand
+    Lgdt(u16, u64, u64),
+    Lidt(u16, u64, u64),
+    Sgdt(u64),
+    Sidt(u64),
+    Ltr(u16),
+    Lldt(u16),
+    /// segment register number (0 es,1 cs,2 ss,3 ds,4 fs,5 gs), value
+    MovToSeg(u8, u16),
+    MovFromSeg(u8, u16),
+    /// 0 = fs, 1 = gs
+    RdBase(u8, u64),
+    WrBase(u8, u64),
+    Swapgs,
+    Ldmxcsr(u32),
+    Stmxcsr(u32),
+    Cpuid(u32, u32),
+    /// rip, cs, rflags, rsp, ss as popped
+    Iretq(u64, u64, u64, u64, u64),
+    /// rip, cs
+    Retfq(u64, u64),
+    Int3,
+    Int(u8),
+}
+
+#[derive(Clone, Copy, Debug)]
+pub struct Event {
+    pub ev: Ev,
+    pub rip: u64,
+    pub len: u8,
+}
+
+#[derive(Clone, Copy, PartialEq, Eq, Debug)]
+pub enum Mode {
+    Off,
+    Fault,
+    Step,
+}
+
+pub const MAX_EV: usize = 512;
+pub const MSR_FS_BASE: u32 = 0xC000_0100;
+pub const MSR_GS_BASE: u32 = 0xC000_0101;
+pub const MSR_KGS_BASE: u32 = 0xC000_0102;
+
+pub struct Cpu {
+    pub mode: Mode,
+    pub cr: [u64; 16],
+    pub dr: [u64; 16],
+    pub xcr0: u64,
+    pub msrs: [(u32, u64); 32],
+    pub nmsr: usize,
+    pub sel: [u16; 6],
+    pub rflags_sys: u64, // simulated non-arithmetic RFLAGS bits (IF, IOPL, ...)
+    pub mxcsr: u32,
+    pub gdtr: (u16, u64),
+    pub idtr: (u16, u64),
+    pub tr: u16,
+    pub ldtr: u16,
+    pub port_in: u32, // value the device supplies on the next IN (truncated to the access width)
+    pub cpuid: [(u32, [u32; 4]); 4],
+    pub ncpuid: usize,
+    pub events: [Event; MAX_EV],
+    pub nev: usize,
+    pub overflow: bool,
+    pub step_end: u64,
+    pub stop_requested: bool,
+    pub steps: u64,
+    pub iret_cont: u64, // continuation RIP after an emulated iretq (0 = execute iretq natively)
+    pub iret_rsp: u64,
+    pub unknown_fault: u64,
+}
+
+const ARITH: u64 = 0x8d5 | 0x400; // CF PF AF ZF SF OF + DF live in the real RFLAGS
+
+pub static mut CPU: Cpu = Cpu {
+    mode: Mode::Off,
+    cr: [0; 16],
+    dr: [0; 16],
+    xcr0: 1,
+    msrs: [(0, 0); 32],
+    nmsr: 0,
+    sel: [0; 6],
+    rflags_sys: 0x202,
+    mxcsr: 0x1f80,
+    gdtr: (0, 0),
+    idtr: (0, 0),
+    tr: 0,
+    ldtr: 0,
+    port_in: 0,
+    cpuid: [(0, [0; 4]); 4],
+    ncpuid: 0,
+    events: [Event { ev: Ev::Cli, rip: 0, len: 0 }; MAX_EV],
+    nev: 0,
+    overflow: false,
+    step_end: 0,
+    stop_requested: false,
+    steps: 0,
+    iret_cont: 0,
+    iret_rsp: 0,
+    unknown_fault: 0,
+};
+
+pub fn cpu() -> &'static mut Cpu {
+    unsafe { &mut CPU }
+}
+
+impl Cpu {
+    pub fn reset(&mut self) {
+        self.cr = [0; 16];
+        self.dr = [0; 16];
+        self.xcr0 = 1;
+        self.nmsr = 0;
+        self.sel = [0x10, 0x08, 0x10, 0x10, 0, 0];
+        self.rflags_sys = 0x202;
+        self.mxcsr = 0x1f80;
+        self.gdtr = (0, 0);
+        self.idtr = (0, 0);
+        self.tr = 0;
+        self.ldtr = 0;
+        self.port_in = 0;
+        self.ncpuid = 0;
+        self.nev = 0;
+        self.overflow = false;
+        self.iret_cont = 0;
+        self.steps = 0;
+    }
+    pub fn clear_events(&mut self) {
+        self.nev = 0;
+        self.overflow = false;
+    }
+    pub fn evs(&self) -> Vec<Ev> {
+        self.events[..self.nev].iter().map(|e| e.ev).collect()
+    }
+    pub fn msr_get(&self, n: u32) -> u64 {
+        for i in 0..self.nmsr {
+            if self.msrs[i].0 == n {
+                return self.msrs[i].1;
+            }
+        }
+        0
+    }
+    pub fn msr_set(&mut self, n: u32, v: u64) {
+        for i in 0..self.nmsr {
+            if self.msrs[i].0 == n {
+                self.msrs[i].1 = v;
+                return;
+            }
+        }
+        if self.nmsr < self.msrs.len() {
+            self.msrs[self.nmsr] = (n, v);
+            self.nmsr += 1;
+        }
+    }
+    pub fn interrupts_enabled(&self) -> bool {
+        self.rflags_sys & 0x200 != 0
+    }
+    pub fn set_if(&mut self, on: bool) {
+        if on {
+            self.rflags_sys |= 0x200
+        } else {
+            self.rflags_sys &= !0x200
+        }
+    }
+    pub fn set_cpuid(&mut self, leaf: u32, regs: [u32; 4]) {
+        for i in 0..self.ncpuid {
+            if self.cpuid[i].0 == leaf {
+                self.cpuid[i].1 = regs;
+                return;
+            }
+        }
+        self.cpuid[self.ncpuid] = (leaf, regs);
+        self.ncpuid += 1;
+    }
+    fn log(&mut self, ev: Ev, rip: u64, len: usize) {
+        if self.nev < MAX_EV {
+            self.events[self.nev] = Event { ev, rip, len: len as u8 };
+            self.nev += 1;
+        } else {
+            self.overflow = true;
+        }
+    }
+}
+
+pub fn panic_hook_notify() {
+    unsafe {
+        if CPU.mode == Mode::Step {
+            CPU.stop_requested = true;
+        }
+    }
+}
+
+// ------------------------------------------------------------------------------------------------ register access in a ucontext
+
+/// x86 register number (0 rax,1 rcx,2 rdx,3 rbx,4 rsp,5 rbp,6 rsi,7 rdi,8..15) -> index into gregs
+fn greg(n: u8) -> usize {
+    (match n {
+        0 => libc::REG_RAX,
+        1 => libc::REG_RCX,
+        2 => libc::REG_RDX,
+        3 => libc::REG_RBX,
+        4 => libc::REG_RSP,
+        5 => libc::REG_RBP,
+        6 => libc::REG_RSI,
+        7 => libc::REG_RDI,
+        8 => libc::REG_R8,
+        9 => libc::REG_R9,
+        10 => libc::REG_R10,
+        11 => libc::REG_R11,
+        12 => libc::REG_R12,
+        13 => libc::REG_R13,
+        14 => libc::REG_R14,
+        _ => libc::REG_R15,
+    }) as usize
+}
+fn rd(uc: &ucontext_t, n: u8) -> u64 {
+    uc.uc_mcontext.gregs[greg(n)] as u64
+}
+fn wr(uc: &mut ucontext_t, n: u8, v: u64) {
+    uc.uc_mcontext.gregs[greg(n)] = v as i64;
+}
+
+struct Dec {
+    len: usize,
+    opsize16: bool,
+    rep: bool, // F3
+    rex: u8,
+}
+struct ModRm {
+    md: u8,
+    reg: u8,
+    rm: u8,
+    ea: u64, // effective address when md != 3
+}
+
+unsafe fn byte(rip: u64, off: usize) -> u8 {
+    *((rip + off as u64) as *const u8)
+}
+
+/// decode ModRM (+SIB+disp) starting at rip+off; returns the operand and the number of bytes consumed
+unsafe fn modrm(uc: &ucontext_t, rip: u64, off: usize, rex: u8, insn_len_after: usize) -> (ModRm, usize) {
+    let b = byte(rip, off);
+    let md = b >> 6;
+    let reg = ((b >> 3) & 7) | ((rex & 4) << 1);
+    let rm_lo = b & 7;
+    let mut used = 1usize;
+    let mut ea: u64 = 0;
+    let mut rm = rm_lo | ((rex & 1) << 3);
+    if md != 3 {
+        if rm_lo == 4 {
+            let sib = byte(rip, off + used);
+            used += 1;
+            let scale = 1u64 << (sib >> 6);
+            let index = ((sib >> 3) & 7) | ((rex & 2) << 2);
+            let base = (sib & 7) | ((rex & 1) << 3);
+            if index != 4 {
+                ea = ea.wrapping_add(rd(uc, index).wrapping_mul(scale));
+            }
+            if (sib & 7) == 5 && md == 0 {
+                let d = i32::from_le_bytes([byte(rip, off + used), byte(rip, off + used + 1), byte(rip, off + used + 2), byte(rip, off + used + 3)]);
+                used += 4;
+                ea = ea.wrapping_add(d as i64 as u64);
+            } else {
+                ea = ea.wrapping_add(rd(uc, base));
+            }
+            rm = base;
+        } else if rm_lo == 5 && md == 0 {
+            let d = i32::from_le_bytes([byte(rip, off + used), byte(rip, off + used + 1), byte(rip, off + used + 2), byte(rip, off + used + 3)]);
+            used += 4;
+            // RIP-relative: relative to the end of the instruction
+            ea = (rip + (off + used + insn_len_after) as u64).wrapping_add(d as i64 as u64);
+        } else {
+            ea = rd(uc, rm);
+        }
+        if md == 1 {
+            ea = ea.wrapping_add(byte(rip, off + used) as i8 as i64 as u64);
+            used += 1;
+        } else if md == 2 {
+            let d = i32::from_le_bytes([byte(rip, off + used), byte(rip, off + used + 1), byte(rip, off + used + 2), byte(rip, off + used + 3)]);
+            used += 4;
+            ea = ea.wrapping_add(d as i64 as u64);
+        }
+    }
+    (ModRm { md, reg, rm, ea }, used)
+}
+
+/// Try to emulate the instruction at RIP. Returns true if it was a sensitive instruction (now applied, RIP advanced).
+pub unsafe fn emulate(uc: &mut ucontext_t) -> bool {
+    let c = &mut CPU;
+    let rip = uc.uc_mcontext.gregs[libc::REG_RIP as usize] as u64;
+    let mut d = Dec { len: 0, opsize16: false, rep: false, rex: 0 };
+    // legacy prefixes
+    loop {
+        match byte(rip, d.len) {
+            0x66 => d.opsize16 = true,
+            0xF3 => d.rep = true,
+            0xF2 | 0x2E | 0x36 | 0x3E | 0x26 | 0x64 | 0x65 => {}
+            _ => break,
+        }
+        d.len += 1;
+        if d.len > 4 {
+            return false;
+        }
+    }
+    let b = byte(rip, d.len);
+    if (0x40..=0x4f).contains(&b) {
+        d.rex = b & 0xf;
+        d.len += 1;
+    }
+    let op = byte(rip, d.len);
+    let o = d.len; // offset of the opcode byte
+    macro_rules! done {
+        ($len:expr, $ev:expr) => {{
+            c.log($ev, rip, $len);
+            uc.uc_mcontext.gregs[libc::REG_RIP as usize] = (rip + $len as u64) as i64;
+            return true;
+        }};
+    }
+    match op {
+        0xFA => {
+            c.set_if(false);
+            done!(o + 1, Ev::Cli)
+        }
+        0xFB => {
+            c.set_if(true);
+            done!(o + 1, Ev::Sti)
+        }
+        0xF4 => done!(o + 1, Ev::Hlt),
+        0x9C if !d.opsize16 => {
+            let real = uc.uc_mcontext.gregs[libc::REG_EFL as usize] as u64;
+            let v = (real & ARITH) | (c.rflags_sys & !ARITH) | 2;
+            let rsp = rd(uc, 4) - 8;
+            *(rsp as *mut u64) = v;
+            wr(uc, 4, rsp);
+            done!(o + 1, Ev::Pushf(v))
+        }
+        0x9D if !d.opsize16 => {
+            let rsp = rd(uc, 4);
+            let v = *(rsp as *const u64);
+            wr(uc, 4, rsp + 8);
+            let real = uc.uc_mcontext.gregs[libc::REG_EFL as usize] as u64;
+            uc.uc_mcontext.gregs[libc::REG_EFL as usize] = ((real & !ARITH) | (v & ARITH)) as i64;
+            c.rflags_sys = v & !ARITH;
+            done!(o + 1, Ev::Popf(v))
+        }
+        0xEC | 0xED | 0xE4 | 0xE5 => {
+            let (port, l) = if op >= 0xEC { (rd(uc, 2) as u16, 1) } else { (byte(rip, o + 1) as u16, 2) };
+            let width: u8 = if op & 1 == 0 { 8 } else if d.opsize16 { 16 } else { 32 };
+            let rax = rd(uc, 0);
+            let v = c.port_in;
+            let (nr, val) = match width {
+                8 => ((rax & !0xff) | (v as u64 & 0xff), v & 0xff),
+                16 => ((rax & !0xffff) | (v as u64 & 0xffff), v & 0xffff),
+                _ => (v as u64, v),
+            };
+            wr(uc, 0, nr);
+            done!(o + l, Ev::In(port, width, val))
+        }
+        0xEE | 0xEF | 0xE6 | 0xE7 => {
+            let (port, l) = if op >= 0xEE { (rd(uc, 2) as u16, 1) } else { (byte(rip, o + 1) as u16, 2) };
+            let width: u8 = if op & 1 == 0 { 8 } else if d.opsize16 { 16 } else { 32 };
+            let rax = rd(uc, 0);
+            let val = match width {
+                8 => rax as u32 & 0xff,
+                16 => rax as u32 & 0xffff,
+                _ => rax as u32,
+            };
+            done!(o + l, Ev::Out(port, width, val))
+        }
+        0xCC => done!(o + 1, Ev::Int3),
+        0xCD => done!(o + 2, Ev::Int(byte(rip, o + 1))),
+        0xCF if d.rex & 8 != 0 && c.iret_cont != 0 => {
+            let rsp = rd(uc, 4) as *const u64;
+            let ev = Ev::Iretq(*rsp, *rsp.add(1), *rsp.add(2), *rsp.add(3), *rsp.add(4));
+            c.log(ev, rip, o + 1);
+            uc.uc_mcontext.gregs[libc::REG_RIP as usize] = c.iret_cont as i64;
+            wr(uc, 4, c.iret_rsp);
+            return true;
+        }
+        0xCB if d.rex & 8 != 0 => {
+            let rsp = rd(uc, 4);
+            let nrip = *(rsp as *const u64);
+            let ncs = *((rsp + 8) as *const u64);
+            c.sel[1] = ncs as u16;
+            c.log(Ev::Retfq(nrip, ncs), rip, o + 1);
+            wr(uc, 4, rsp + 16);
+            uc.uc_mcontext.gregs[libc::REG_RIP as usize] = nrip as i64;
+            return true;
+        }
+        0x8E => {
+            let (m, used) = modrm(uc, rip, o + 1, d.rex, 0);
+            let v = if m.md == 3 { rd(uc, m.rm) as u16 } else { *(m.ea as *const u16) };
+            let s = m.reg & 7;
+            if s > 5 {
+                return false;
+            }
+            c.sel[s as usize] = v;
+            done!(o + 1 + used, Ev::MovToSeg(s, v))
+        }
+        0x8C => {
+            let (m, used) = modrm(uc, rip, o + 1, d.rex, 0);
+            let s = m.reg & 7;
+            if s > 5 {
+                return false;
+            }
+            let v = c.sel[s as usize];
+            if m.md == 3 {
+                let old = rd(uc, m.rm);
+                let nv = if d.opsize16 { (old & !0xffff) | v as u64 } else { v as u64 };
+                wr(uc, m.rm, nv);
+            } else {
+                *(m.ea as *mut u16) = v;
+            }
+            done!(o + 1 + used, Ev::MovFromSeg(s, v))
+        }
+        0x0F => {
+            let op2 = byte(rip, o + 1);
+            match op2 {
+                0x20 | 0x21 | 0x22 | 0x23 => {
+                    let b = byte(rip, o + 2);
+                    let n = ((b >> 3) & 7) | ((d.rex & 4) << 1);
+                    let r = (b & 7) | ((d.rex & 1) << 3);
+                    let ev = match op2 {
+                        0x20 => {
+                            let v = c.cr[n as usize];
+                            wr(uc, r, v);
+                            Ev::ReadCr(n, v)
+                        }
+                        0x22 => {
+                            let v = rd(uc, r);
+                            c.cr[n as usize] = if n == 3 { v & !(1u64 << 63) } else { v };
+                            Ev::WriteCr(n, v)
+                        }
+                        0x21 => {
+                            let v = c.dr[n as usize];
+                            wr(uc, r, v);
+                            Ev::ReadDr(n, v)
+                        }
+                        _ => {
+                            let v = rd(uc, r);
+                            c.dr[n as usize] = v;
+                            Ev::WriteDr(n, v)
+                        }
+                    };
+                    done!(o + 3, ev)
+                }
+                0x32 => {
+                    let n = rd(uc, 1) as u32;
+                    let v = match n {
+                        _ => c.msr_get(n),
+                    };
+                    wr(uc, 0, v & 0xffff_ffff);
+                    wr(uc, 2, v >> 32);
+                    done!(o + 2, Ev::Rdmsr(n, v))
+                }
+                0x30 => {
+                    let n = rd(uc, 1) as u32;
+                    let (rax, rdx) = (rd(uc, 0), rd(uc, 2));
+                    let v = (rdx & 0xffff_ffff) << 32 | (rax & 0xffff_ffff);
+                    c.msr_set(n, v);
+                    done!(o + 2, Ev::Wrmsr(n, v, rax, rdx))
+                }
+                0xA2 => {
+                    let leaf = rd(uc, 0) as u32;
+                    let sub = rd(uc, 1) as u32;
+                    for i in 0..c.ncpuid {
+                        if c.cpuid[i].0 == leaf {
+                            let r = c.cpuid[i].1;
+                            wr(uc, 0, r[0] as u64);
+                            wr(uc, 3, r[1] as u64);
+                            wr(uc, 1, r[2] as u64);
+                            wr(uc, 2, r[3] as u64);
+                            done!(o + 2, Ev::Cpuid(leaf, sub))
+                        }
+                    }
+                    false
+                }
+                0x01 => {
+                    let b = byte(rip, o + 2);
+                    match b {
+                        0xD0 => {
+                            let n = rd(uc, 1) as u32;
+                            let v = c.xcr0;
+                            wr(uc, 0, v & 0xffff_ffff);
+                            wr(uc, 2, v >> 32);
+                            done!(o + 3, Ev::Xgetbv(n, v))
+                        }
+                        0xD1 => {
+                            let n = rd(uc, 1) as u32;
+                            let v = (rd(uc, 2) & 0xffff_ffff) << 32 | (rd(uc, 0) & 0xffff_ffff);
+                            if n == 0 {
+                                c.xcr0 = v;
+                            }
+                            done!(o + 3, Ev::Xsetbv(n, v))
+                        }
+                        0xF8 => {
+                            let g = c.msr_get(MSR_GS_BASE);
+                            let k = c.msr_get(MSR_KGS_BASE);
+                            c.msr_set(MSR_GS_BASE, k);
+                            c.msr_set(MSR_KGS_BASE, g);
+                            done!(o + 3, Ev::Swapgs)
+                        }
+                        0xFE => done!(o + 3, Ev::Invlpgb(rd(uc, 0), rd(uc, 1) as u32, rd(uc, 2) as u32)),
+                        0xFF => done!(o + 3, Ev::Tlbsync),
+                        _ => {
+                            let (m, used) = modrm(uc, rip, o + 2, d.rex, 0);
+                            if m.md == 3 {
+                                return false;
+                            }
+                            let l = o + 2 + used;
+                            match m.reg & 7 {
+                                7 => done!(l, Ev::Invlpg(m.ea)),
+                                2 | 3 => {
+                                    let limit = *(m.ea as *const u16);
+                                    let base = core::ptr::read_unaligned((m.ea + 2) as *const u64);
+                                    if m.reg & 7 == 2 {
+                                        c.gdtr = (limit, base);
+                                        done!(l, Ev::Lgdt(limit, base, m.ea))
+                                    } else {
+                                        c.idtr = (limit, base);
+                                        done!(l, Ev::Lidt(limit, base, m.ea))
+                                    }
+                                }
+                                0 | 1 => {
+                                    let (limit, base) = if m.reg & 7 == 0 { c.gdtr } else { c.idtr };
+                                    *(m.ea as *mut u16) = limit;
+                                    core::ptr::write_unaligned((m.ea + 2) as *mut u64, base);
+                                    if m.reg & 7 == 0 {
+                                        done!(l, Ev::Sgdt(m.ea))
+                                    } else {
+                                        done!(l, Ev::Sidt(m.ea))
+                                    }
+                                }
+                                _ => false,
+                            }
+                        }
+                    }
+                }
+                0x00 => {
+                    let (m, used) = modrm(uc, rip, o + 2, d.rex, 0);
+                    let v = if m.md == 3 { rd(uc, m.rm) as u16 } else { *(m.ea as *const u16) };
+                    match m.reg & 7 {
+                        3 => {
+                            c.tr = v;
+                            done!(o + 2 + used, Ev::Ltr(v))
+                        }
+                        2 => {
+                            c.ldtr = v;
+                            done!(o + 2 + used, Ev::Lldt(v))
+                        }
+                        _ => false,
+                    }
+                }
+                0xAE => {
+                    let (m, used) = modrm(uc, rip, o + 2, d.rex, 0);
+                    let l = o + 2 + used;
+                    if d.rep && m.md == 3 {
+                        // rdfsbase/rdgsbase/wrfsbase/wrgsbase
+                        let w64 = d.rex & 8 != 0;
+                        let which = (m.reg & 1) as u8;
+                        let msr = if which == 0 { MSR_FS_BASE } else { MSR_GS_BASE };
+                        match m.reg & 7 {
+                            0 | 1 => {
+                                let v = c.msr_get(msr);
+                                wr(uc, m.rm, if w64 { v } else { v & 0xffff_ffff });
+                                done!(l, Ev::RdBase(which, v))
+                            }
+                            2 | 3 => {
+                                let v = if w64 { rd(uc, m.rm) } else { rd(uc, m.rm) & 0xffff_ffff };
+                                c.msr_set(msr, v);
+                                done!(l, Ev::WrBase(which, v))
+                            }
+                            _ => false,
+                        }
+                    } else if !d.rep && m.md != 3 {
+                        match m.reg & 7 {
+                            2 => {
+                                let v = *(m.ea as *const u32);
+                                c.mxcsr = v;
+                                done!(l, Ev::Ldmxcsr(v))
+                            }
+                            3 => {
+                                *(m.ea as *mut u32) = c.mxcsr;
+                                done!(l, Ev::Stmxcsr(c.mxcsr))
+                            }
+                            _ => false,
+                        }
+                    } else {
+                        false
+                    }
+                }
+                0x38 if d.opsize16 && byte(rip, o + 2) == 0x82 => {
+                    let (m, used) = modrm(uc, rip, o + 3, d.rex, 0);
+                    if m.md == 3 {
+                        return false;
+                    }
+                    let ty = rd(uc, m.reg);
+                    let d0 = core::ptr::read_unaligned(m.ea as *const u64);
+                    let d1 = core::ptr::read_unaligned((m.ea + 8) as *const u64);
+                    done!(o + 3 + used, Ev::Invpcid(ty, d0, d1))
+                }
+                _ => false,
+            }
+        }
+        _ => false,
+    }
+}
+
+/// signal entry (called from sig.rs after the memory environments declined)
+pub unsafe fn on_signal(sig: c_int, info: *mut siginfo_t, uc: &mut ucontext_t) -> bool {
+    let c = &mut CPU;
+    if c.mode == Mode::Off {
+        return false;
+    }
+    if sig == libc::SIGTRAP {
+        if c.mode != Mode::Step {
+            return false;
+        }
+        let _ = info;
+        loop {
+            c.steps += 1;
+            let rip = uc.uc_mcontext.gregs[libc::REG_RIP as usize] as u64;
+            if rip == c.step_end || c.stop_requested {
+                uc.uc_mcontext.gregs[libc::REG_EFL as usize] &= !0x100;
+                c.mode = Mode::Off;
+                c.stop_requested = false;
+                return true;
+            }
+            if !emulate(uc) {
+                break;
+            }
+        }
+        return true;
+    }
+    // SIGSEGV (#GP) / SIGILL (#UD) at a privileged instruction
+    if emulate(uc) {
+        if c.mode == Mode::Step {
+            // keep inspecting: the next instruction would execute before the next trap
+            loop {
+                let rip = uc.uc_mcontext.gregs[libc::REG_RIP as usize] as u64;
+                if rip == c.step_end || c.stop_requested {
+                    uc.uc_mcontext.gregs[libc::REG_EFL as usize] &= !0x100;
+                    c.mode = Mode::Off;
+                    c.stop_requested = false;
+                    break;
+                }
+                if !emulate(uc) {
+                    break;
+                }
+            }
+        }
+        return true;
+    }
+    c.unknown_fault = uc.uc_mcontext.gregs[libc::REG_RIP as usize] as u64;
     false
+}
+
+#[inline(never)]
+#[no_mangle]
+pub extern "C" fn vh_step_end_marker() {
+    unsafe { core::arch::asm!("nop", options(nomem, nostack)) };
+}
+
+/// Run `f` under single-stepping with every sensitive instruction emulated. Returns Err on panic.
+pub fn run_stepped<R>(f: impl FnOnce() -> R) -> Result<R, ()> {
+    unsafe {
+        CPU.step_end = vh_step_end_marker as usize as u64;
+        CPU.stop_requested = false;
+        core::ptr::write_volatile(core::ptr::addr_of_mut!(CPU.mode), Mode::Step);
+        core::arch::asm!("", options(nostack));
+    }
+    let r = crate::out::catch(|| {
+        unsafe {
+            core::arch::asm!("pushfq", "or qword ptr [rsp], 0x100", "popfq", "nop");
+        }
+        let r = f();
+        vh_step_end_marker();
+        r
+    });
+    unsafe {
+        if CPU.mode == Mode::Step {
+            // a panic left the stepped region through the panic hook; make sure TF is off
+            CPU.stop_requested = true;
+            core::arch::asm!("nop", "nop");
+            CPU.mode = Mode::Off;
+            CPU.stop_requested = false;
+        }
+    }
+    r
+}
+
+/// Run `f` natively; privileged instructions trap and are emulated.
+pub fn run_fault<R>(f: impl FnOnce() -> R) -> Result<R, ()> {
+    unsafe {
+        core::ptr::write_volatile(core::ptr::addr_of_mut!(CPU.mode), Mode::Fault);
+        // compiler barrier: the signal handler reads the register file; the wrappers' asm blocks are `nomem`
+        core::arch::asm!("", options(nostack));
+    }
+    let r = crate::out::catch(f);
+    unsafe {
+        core::arch::asm!("", options(nostack));
+        core::ptr::write_volatile(core::ptr::addr_of_mut!(CPU.mode), Mode::Off);
+    }
+    r
+}
+
+pub fn init() {
+    crate::sig::install();
+    // prime std's CPU feature cache before any stepping
+    let _ = std::is_x86_feature_detected!("avx2");
+    cpu().reset();
 }
